@@ -28,7 +28,7 @@ from typing import TYPE_CHECKING
 from igraph import Vertex
 
 from explorerscript.ssb_converting.decompiler.write_handlers.abstract import AbstractWriteHandler
-from explorerscript.ssb_converting.ssb_special_ops import SsbLabelJump
+from explorerscript.ssb_converting.ssb_special_ops import SsbLabel, SsbLabelJump
 
 if TYPE_CHECKING:
     from explorerscript.ssb_converting.ssb_decompiler import ExplorerScriptSsbDecompiler
@@ -53,6 +53,15 @@ class CallWriteHandler(AbstractWriteHandler):
         self.decompiler.write_stmnt(f"call @label_{op.label.id};")
         exits = self.start_vertex.out_edges()
         assert 3 > len(exits) > 0, f"A call must have exactly one or two points to jump to, has {len(exits)}."
-        # Continue with the operation after the call (the edge with the lower flow level), not with the called label.
-        # The order of the edges depends on where the label is in the routine.
-        return min(exits, key=lambda e: e["flow_level"]).target_vertex
+        # Continue with the operation after the call, not with the called label. Neither the order of the edges (it depends
+        # on where the label is in the routine) nor their flow level (it is raised when a jump after the call is removed)
+        # tell them apart, the target does.
+        exits_after_call = [
+            e
+            for e in exits
+            if not (isinstance(e.target_vertex["op"], SsbLabel) and e.target_vertex["op"].id == op.label.id)
+        ]
+        if len(exits_after_call) > 0:
+            return exits_after_call[0].target_vertex
+        # The operation after the call is the called label itself.
+        return exits[0].target_vertex
